@@ -174,8 +174,26 @@ def run_ascii(ctx, pairs):
         for s in (uni, "%" + uni, "%4" + uni, "a" + uni + "b", uni + "41", "%" + uni + "41", "%4" + uni + "1", "% " + uni):
             for p in pairs:
                 compare(ctx, p, s, "uni")
+    # truncation aliases: code points whose low 8/16 bits are an ASCII hex digit or delimiter
+    from ..gen import ALIAS_CHARS
+
+    for a in ALIAS_CHARS:
+        for s in (a, "%" + a + a, "%4" + a, "%" + a + "1", "%E2%82%" + a + "C", "a" + a + "b", a + "41", "x%" + a + a + "y"):
+            for p in pairs:
+                compare(ctx, p, s, "alias")
     ctx.sample({"config": "<all>", "input": "%4\udc801"})
     ctx.notes["ascii_strings"] = n
+    # non-str arguments and str subclasses: same value or same exception type on both backends
+    class S(str):
+        pass
+
+    for val in (None, b"abc", bytearray(b"a"), 1, 1.5, ["a"], ("a",), object(), S("a b%41"), S(""), True):
+        for name, kind, kw, pyq, cq in pairs:
+            a, b = guarded(pyq, val), guarded(cq, val)
+            ctx.ev((name, "type:" + type(val).__name__, "exc" if is_exc(a) else "ok"))
+            ctx.count("cmp_" + name)
+            if a != b or type(a) is not type(b):
+                ctx.fail("quoter_diff", {"config": name, "kind": kind, "kwargs": kw, "input": repr(val), "part": "types"}, f"py={a!r} c={b!r}")
 
 
 TAILS = ["", "%", "%4", " ", "é", "€", "😀", "%c3%a9", "%41", "\udc80", "+", "%2"]
